@@ -828,6 +828,81 @@ def gt_staleexec(ctx: Ctx) -> RuleResult:
     return r
 
 
+def gt_stalegate(ctx: Ctx) -> RuleResult:
+    """The debug gate is decided with the configuration that holds when the graph RUNS.
+
+    A plain call applies the gate (RUN_DEBUG_NODES) at every call. An executor that applies it once, when it is created, and stores
+    the gated graph, runs debug nodes after the flag was switched off (and skips them after it was switched on)."""
+    r = RuleResult("GT-STALEGATE")
+    g = ctx.P.classes[graph_q(ctx)]
+    gate = g.methods.get("extend_graph_with_debug_nodes")
+    r.require(gate is not None, "debug gate not found")
+    sites = [(f, call) for f in ctx.funcs() for call, q in ctx.calls_in(f) if q == gate.qualname]
+    r.require(len(sites) >= 3, f"only {len(sites)} applications of the debug gate found")
+    for f, call in sites:
+        at_init = f.cls is not None and f.name in ("__init__", "__post_init__")
+        stored = None
+        if at_init:
+            st = None
+            for n in iter_own_nodes(f.node):
+                if isinstance(n, ast.Assign) and any(x is call for x in ast.walk(n.value)):
+                    st = n
+            if st is not None and isinstance(st.targets[0], ast.Attribute) and dotted(st.targets[0].value) == "self":
+                stored = st.targets[0].attr
+            elif st is not None and isinstance(st.targets[0], ast.Name):
+                # through a local
+                for n in iter_own_nodes(f.node):
+                    if isinstance(n, ast.Assign) and isinstance(n.targets[0], ast.Attribute) and dotted(n.targets[0].value) == "self" \
+                            and st.targets[0].id in names_in(n.value) and n.lineno > st.lineno:
+                        stored = n.targets[0].attr
+        r.ob(stored is None, {"gate applied in": f.short, "stored on the object at construction": stored})
+        if stored is not None:
+            r.violate(f"executors: the debug gate is applied when the executor is created (self.{stored}), not when it runs", f.loc(call),
+                      "an executor created while RUN_DEBUG_NODES is on and run after it was switched off still executes the debug "
+                      "nodes (a plain call at that moment does not); created while off and run while on it skips them all",
+                      norm_src(call)[:100])
+    return r
+
+
+def gt_norecurse(ctx: Ctx) -> RuleResult:
+    """No function of the package walks the dependency graph by recursing along its edges.
+
+    A DAG may hold dependency paths longer than the interpreter's recursion limit (a 1500-node chain builds and runs); a helper
+    that calls itself once per edge of such a path raises RecursionError - the walk must use an explicit work list (or networkx)."""
+    r = RuleResult("GT-NORECURSE")
+    edge_attrs = {"predecessors", "successors", "dependencies", "pred", "succ", "neighbors"}
+    n_walks = 0
+    for f in ctx.funcs():
+        loops = [n for n in iter_own_nodes(f.node) if isinstance(n, (ast.For, ast.While, ast.ListComp, ast.SetComp, ast.GeneratorExp, ast.DictComp))]
+        along = []
+        for lp in loops:
+            srcs = [lp.iter] if isinstance(lp, ast.For) else ([g.iter for g in lp.generators] if not isinstance(lp, ast.While) else [lp])
+            hit = False
+            for src in srcs:
+                for x in ast.walk(src):
+                    if isinstance(x, ast.Attribute) and x.attr in edge_attrs:
+                        hit = True
+                    if isinstance(x, ast.Name):
+                        for d in (ctx.reaching_defs(f, x.id, src) if isinstance(lp, ast.For) else []):
+                            if isinstance(d, ast.Assign) and any(isinstance(y, ast.Attribute) and y.attr in edge_attrs for y in ast.walk(d.value)):
+                                hit = True
+            if hit:
+                along.append(lp)
+        if not along:
+            continue
+        n_walks += 1
+        selfcalls = [c for lp in along for c in ast.walk(lp) if isinstance(c, ast.Call) and isinstance(c.func, ast.Name) and c.func.id == f.name
+                     or (isinstance(c, ast.Call) and isinstance(c.func, ast.Attribute) and c.func.attr == f.name and dotted(c.func.value) == "self"
+                         and f.cls is not None)]
+        r.ob(not selfcalls, {"walk along graph edges in": f.short, "recursive": bool(selfcalls)})
+        if selfcalls:
+            r.violate(f"{f.short}: the dependency graph is walked by recursion along its edges", f.loc(selfcalls[0]),
+                      "one Python frame per edge of a dependency path: a chain longer than the recursion limit (about 1000 nodes), which the "
+                      "library builds and runs, raises RecursionError here", norm_src(selfcalls[0]))
+    r.require(n_walks >= 3, f"functions iterating over graph edges: {n_walks} found")
+    return r
+
+
 # --------------------------------------------------------------------------------------------- GT-CYCLE
 def gt_cycle(ctx: Ctx) -> RuleResult:
     r = RuleResult("GT-CYCLE")
@@ -1744,6 +1819,8 @@ def gt_rootconst(ctx: Ctx) -> RuleResult:
 RULES = {
     "GT-REFALIAS": gt_refalias, "GT-ROOTCONST": gt_rootconst,
     "GT-STALEEXEC": gt_staleexec,
+    "GT-STALEGATE": gt_stalegate,
+    "GT-NORECURSE": gt_norecurse,
     "GT-DEFAULTSEL": gt_defaultsel,
     "GT-MODEL": gt_model, "GT-CARRY": gt_carry, "GT-PRIO-SINK": gt_prio_sink, "GT-POP": gt_pop, "GT-FORMULA": gt_formula,
     "GT-RECONF": gt_reconf, "GT-CYCLE": gt_cycle, "GT-SELECT": gt_select, "GT-ALIAS": gt_alias, "GT-GATE": gt_gate,
